@@ -61,7 +61,7 @@ static void put_sum(const char *s)
 {
   if (s == NULL) { fputs("~", stdout); return; }
   size_t n = strlen(s);
-  uint64_t h = 1469598103934665603ULL;
+  uint64_t h = 14695981039346656037ULL;
   for (size_t i = 0; i < n; i++) { h ^= (unsigned char)s[i]; h *= 1099511628211ULL; }
   printf("len=%zu fnv=%016" PRIx64, n, h);
 }
@@ -276,7 +276,7 @@ static void print_file_sum(const char *path)
 {
   FILE *f = __real_fopen(path, "rb");
   if (!f) { printf("bytes none\n"); return; }
-  uint64_t h = 1469598103934665603ULL; size_t n = 0; int c;
+  uint64_t h = 14695981039346656037ULL; size_t n = 0; int c;
   while ((c = fgetc(f)) != EOF) { h ^= (unsigned char)c; h *= 1099511628211ULL; n++; }
   printf("bytes len=%zu fnv=%016" PRIx64 "\n", n, h);
   fclose(f);
